@@ -167,9 +167,13 @@ func (x *Engine) intrinsic(fr *Frame, st *State, name string, callee *ssa.Functi
 		x.regComp(g, "Int")
 		prev := x.get(st, g)
 		v := x.freshVal("now", rt(), st)
-		x.assume(st, fmt.Sprintf("(and (>= %s %s) (< %s 4611686018427387904))", v.T, prev, v.T))
+		bound := "4611686018427387904" // nanoseconds: below 2^62 (year 2116)
+		if !strings.HasSuffix(name, "Nano") {
+			bound = "4398046511104" // milliseconds: below 2^42 (year 2109)
+		}
+		x.assume(st, fmt.Sprintf("(and (>= %s %s) (< %s %s))", v.T, prev, v.T, bound))
 		st.h[g] = v.T
-		x.abstracted("clock read: fresh non-decreasing value below 2^62")
+		x.abstracted("clock read: fresh non-decreasing value (ms below 2^42, ns below 2^62)")
 		return v, true
 	case name == "math.Ceil":
 		return Val{T: x.name("f", "Real", fmt.Sprintf("(to_real (- (to_int (- %s))))", args[0].T)), Typ: rt()}, true
@@ -242,6 +246,13 @@ func (x *Engine) poolInv(st *State, t types.Type, ref string) (string, *Clause) 
 }
 
 func (x *Engine) poolPut(fr *Frame, st *State, pool Val, v Val, pos string) {
+	// ghost record of the object handed back (lets contracts state that nothing live still shares its storage)
+	if mi := x.putType[v.T]; mi != nil {
+		if g, ok := x.db.Ghosts["gLastPooled"]; ok {
+			x.regComp("ghost:gLastPooled", g.Sort)
+			st.h["ghost:gLastPooled"] = mi.ref
+		}
+	}
 	// whoever returns an object to the pool must have re-established the pool invariant
 	if mi := x.putType[v.T]; mi != nil {
 		if g, c := x.poolInv(st, mi.typ, mi.ref); c != nil {
